@@ -278,13 +278,19 @@ func podAdmitsDomain(p *corev1.Pod, key, value string) bool {
 
 // ownConstraintsOn counts the required inter-pod constraints the pod itself carries over the key. With two or more, the
 // domains Karpenter picks for them can have an empty intersection, which its requirement algebra reads as "label must be
-// absent" (the presence-loss defect recorded under C12).
-func ownConstraintsOn(p *corev1.Pod, key string) int {
+// absent" (the presence-loss defect recorded under C12). Unless preferences are ignored, Karpenter first treats preferred
+// terms and ScheduleAnyway spreads as required too (soft).
+func ownConstraintsOn(p *corev1.Pod, key string, soft bool) int {
 	n := 0
 	if a := p.Spec.Affinity; a != nil {
 		if a.PodAffinity != nil {
 			for _, t := range a.PodAffinity.RequiredDuringSchedulingIgnoredDuringExecution {
 				if t.TopologyKey == key {
+					n++
+				}
+			}
+			for _, t := range a.PodAffinity.PreferredDuringSchedulingIgnoredDuringExecution {
+				if soft && t.PodAffinityTerm.TopologyKey == key {
 					n++
 				}
 			}
@@ -295,10 +301,15 @@ func ownConstraintsOn(p *corev1.Pod, key string) int {
 					n++
 				}
 			}
+			for _, t := range a.PodAntiAffinity.PreferredDuringSchedulingIgnoredDuringExecution {
+				if soft && t.PodAffinityTerm.TopologyKey == key {
+					n++
+				}
+			}
 		}
 	}
 	for _, t := range p.Spec.TopologySpreadConstraints {
-		if t.TopologyKey == key && t.WhenUnsatisfiable == corev1.DoNotSchedule {
+		if t.TopologyKey == key && (t.WhenUnsatisfiable == corev1.DoNotSchedule || soft) {
 			n++
 		}
 	}
@@ -369,7 +380,7 @@ func execC02(s *c02Scenario, c *ev.Ctx) {
 	// constraintsOn: the pod's own required constraints over the key plus the required anti-affinity terms of other pods
 	// that select it (Karpenter enforces those on the newcomer too)
 	constraintsOn := func(p *c02Pod, key string) int {
-		n := ownConstraintsOn(p.pod, key)
+		n := ownConstraintsOn(p.pod, key, !s.World.Options.IgnorePreferences)
 		var all []*corev1.Pod
 		all = append(all, s.World.Pending...)
 		all = append(all, s.World.Bound...)
